@@ -541,10 +541,10 @@ func genScenario(t *rapid.T) scenario {
 
 // model is what the scenario alone says about the call, independent of the code under test.
 type model struct {
-	Names    []string          // name under which object i lives in the cluster
-	Keys     []verifsim.Key    // same as store keys
-	Refused  map[int]string    // object index -> why it cannot be taken over
-	PreErr   string            // the package as a whole cannot be established (no webhook CA)
+	Names    []string       // name under which object i lives in the cluster
+	Keys     []verifsim.Key // same as store keys
+	Refused  map[int]string // object index -> why it cannot be taken over
+	PreErr   string         // the package as a whole cannot be established (no webhook CA)
 	HasCert  bool
 	Existing map[int]bool
 	Owned    map[int]bool // the revision under test is an owner (controller or not) beforehand
